@@ -30,7 +30,7 @@ EPS = 1e-5
 
 
 def gen_cases(tier, seed):
-    n = 60 if tier == "quick" else 1500
+    n = 200 if tier == "quick" else 3000
     for i in range(n):
         yield {"seed": seed, "i": i, "pid": PID}
 
@@ -64,6 +64,57 @@ def series(r, gid, vids, n):
             "socs": [[row[i] for i in idx] for row in r["socs"][:n]]}
 
 
+def record_prioritisation(full):
+    """run the real distributed strategy and record, for every step and connector with number_cs, the
+    inputs and the result of the ranking block (the `sorted` the block calls is shadowed in the module's
+    namespace by a recording one; `self.connected` is read before and after the step)"""
+    import builtins
+    from spice_ev.strategies import distributed as dmod
+    from wire import enc
+    lines, impl = [], []
+    calls = []
+
+    def rec_sorted(it, *a, **k):
+        lst = list(it)
+        if lst and isinstance(lst[0], dict) and "vehicle_id" in lst[0] and "soc" in lst[0] or lst == []:
+            calls.append([(x["vehicle_id"], x["soc"]) for x in lst])
+        return builtins.sorted(lst, *a, **k)
+    orig_step = dmod.Distributed.step
+
+    def step(self):
+        del calls[:]
+        before = {}
+        for gid, gc in self.world_state.grid_connectors.items():
+            if gc.number_cs is not None:
+                before[gid] = [vid for vid, v in self.connected[gid].items()
+                               if v.connected_charging_station is not None]
+        try:
+            return orig_step(self)
+        finally:
+            k = 0
+            for gid, conn in before.items():
+                ncs = self.world_state.grid_connectors[gid].number_cs
+                if len(conn) >= ncs:
+                    arr = []
+                elif k < len(calls):
+                    arr = calls[k]
+                    k += 1
+                else:
+                    continue          # the step raised before reaching this connector
+                lines.append("prioritise %d %d %s %d %s" % (
+                    ncs, len(conn), " ".join(conn), len(arr), " ".join("%s %s" % (a, enc(float(b))) for a, b in arr)))
+                now = list(self.connected[gid].keys())
+                impl.append(" ".join([str(len(now))] + now))
+    dmod.sorted = rec_sorted
+    dmod.Distributed.step = step
+    try:
+        r = scen.run_real(full, timeout_s=90)
+    finally:
+        dmod.Distributed.step = orig_step
+        del dmod.sorted
+    return r, lines, impl
+
+
 def eval_case(case):
     if "scenario" in case:
         full = case
@@ -80,7 +131,7 @@ def eval_case(case):
         full["pid"] = PID
         # the vehicles of the generator belong to exactly one station each; one station type per connector
     viol, stats = [], []
-    r = scen.run_real(full, timeout_s=90)
+    r, lines, impl = record_prioritisation(full)
     if r.get("step_i") is None:
         return {"lines": [], "impl": [], "violations": [], "nontrivial": False, "stats": ["no_run"],
                 "replay_case": full}
@@ -123,5 +174,5 @@ def eval_case(case):
                     viol.append(("delegation", "C14:%s_connector_differs_from_%s" % (stype, ref["strategy"]),
                                  "%s %s" % (gid, d[:250])))
             stats.append(stype)
-    return {"lines": [], "impl": [], "violations": viol, "nontrivial": charged or bool(r.get("step_i")),
-            "stats": stats, "replay_case": full}
+    return {"lines": lines, "impl": impl, "violations": viol, "nontrivial": charged or bool(r.get("step_i")),
+            "stats": stats, "replay_case": full, "num": {"rankings_compared": len(lines)}}
